@@ -2,10 +2,11 @@ package main
 
 // C04: real-time correspondence for the Waiter and the fire/discard decision of the instance loop.
 //
-//	mode=waiter toks=<ms,...> sleeps=<ms,...> [cancel=<ms>]
+//	mode=waiter toks=<ms,...> sleeps=<ms,...> [cancel=<ms>] [unit=us] [slownext=<us>]
 //	    the real coreutil.Waiter over a scripted schedule whose i-th token is T0+toks[i] ms (T0 = time.Now() at the
 //	    start of the case; tokens seconds in the past / fractions of a second in the future), sleeping sleeps[i] ms
-//	    before the i-th Wait. Decisions are deterministic by construction (lateness far from 2 s).
+//	    before the i-th Wait (unit=us: both in microseconds). slownext: the schedule needs that long to hand a token out
+//	    (a contended shared schedule); the pick-up instant is taken when it returns.
 //	mode=engine inst=<n> prof=<once:N|const:OPS:MS>[+...] resp=<ms,...> discard=<0|1> [perinst=1]
 //	    the real engine (engine.New(...).Run) with n instances (startup once(n)), the real schedule constructors,
 //	    provider.NewNum, a gun that records the instant of Shoot entry and then sleeps resp[k mod len] ms (k = number of
@@ -123,11 +124,15 @@ func (r *recorder) render() string {
 // recSched wraps a schedule and records every token handed out.
 type recSched struct {
 	core.Schedule
-	rec *recorder
+	rec  *recorder
+	slow time.Duration
 }
 
 func (s *recSched) Next() (time.Time, bool) {
 	ts, ok := s.Schedule.Next()
+	if s.slow > 0 {
+		time.Sleep(s.slow)
+	}
 	if ok {
 		s.rec.picked(ts)
 	}
@@ -272,7 +277,8 @@ func runWaiter(m map[string]string) string {
 		tm := time.AfterFunc(time.Duration(ms)*time.Millisecond, cancel)
 		defer tm.Stop()
 	}
-	w := coreutil.NewWaiter(&recSched{Schedule: ss, rec: rec})
+	slow, _ := strconv.ParseInt(m["slownext"], 10, 64)
+	w := coreutil.NewWaiter(&recSched{Schedule: ss, rec: rec, slow: time.Duration(slow) * time.Microsecond})
 	for i := range toks {
 		if i < len(sleeps) && sleeps[i] > 0 {
 			time.Sleep(time.Duration(sleeps[i]) * unit)
@@ -446,6 +452,8 @@ func genWaiterNear(r *rand.Rand, us bool) string {
 		}
 		if r.Intn(7) == 0 {
 			late = -int64(20+r.Intn(100)) * unit // a timer sleep in between: refreshes the cached reading
+		} else if us && r.Intn(5) == 0 {
+			late = -int64(50 + r.Intn(2000)) // a token less than ~2 ms ahead: a very short timer sleep
 		}
 		toks = append(toks, clock-late)
 		sleeps = append(sleeps, sl)
@@ -456,6 +464,10 @@ func genWaiterNear(r *rand.Rand, us bool) string {
 	u := ""
 	if us {
 		u = " unit=us"
+	}
+	if r.Intn(3) == 0 {
+		// the lateness aimed at is the one at the START of Next; the pick-up is `slownext` later
+		u += fmt.Sprintf(" slownext=%d", []int{300, 1000, 3000, 8000}[r.Intn(4)])
 	}
 	return fmt.Sprintf("mode=waiter toks=%s sleeps=%s%s", joinInts(toks), joinInts(sleeps), u)
 }
@@ -481,7 +493,11 @@ func genWaiterCancel(r *rand.Rand) string {
 
 var respPool = []int64{0, 0, 50, 300, 700, 1000, 1500, 2100, 3000, 4000}
 
-func genSeg(r *rand.Rand, small bool) string {
+func genSeg(r *rand.Rand, small, big bool) string {
+	if big && !small && r.Intn(5) == 0 {
+		// a dense profile: dozens of tokens per second
+		return fmt.Sprintf("const:%d:%d", 25+r.Intn(40), 1000+500*r.Intn(4))
+	}
 	switch k := r.Intn(6); {
 	case k == 0:
 		return fmt.Sprintf("once:%d", 1+r.Intn(8))
@@ -509,9 +525,12 @@ func genEngine(r *rand.Rand, thorough bool) string {
 	if r.Intn(4) == 0 {
 		discard = 0
 	}
-	prof := genSeg(r, discard == 0)
+	prof := genSeg(r, discard == 0, thorough)
 	if r.Intn(3) == 0 {
-		prof += "+" + genSeg(r, discard == 0)
+		prof += "+" + genSeg(r, discard == 0, thorough)
+	}
+	if thorough && r.Intn(10) == 0 {
+		prof += "+" + genSeg(r, discard == 0, false)
 	}
 	n := 1 + r.Intn(5)
 	var resp []int64
@@ -539,7 +558,8 @@ func gen(r *rand.Rand, tier string) []string {
 	out = append(out,
 		"mode=proc given=none lat=800 times=6",
 		"mode=proc given=false lat=800 times=5",
-		"mode=proc given=true lat=800 times=6")
+		"mode=proc given=true lat=800 times=6",
+		"mode=proc given=none lat=800 times=5 pools=2")
 	// scripted engine scenarios: single and several instances, const/once profiles, response-time histories 0 / 0.3 s /
 	// 1 s / 3 s and mixtures
 	quick := []string{
@@ -559,11 +579,12 @@ func gen(r *rand.Rand, tier string) []string {
 	out = append(out, quick...)
 	ne, nw, nn, nc := 10, 40, 16, 3
 	if thorough {
-		ne, nw, nn, nc = 420, 900, 500, 60
+		ne, nw, nn, nc = 800, 1800, 1200, 120
 		for _, g := range []string{"none", "true", "false"} {
 			for _, lat := range []int{700, 1100} {
 				for _, times := range []int{4, 7} {
 					out = append(out, fmt.Sprintf("mode=proc given=%s lat=%d times=%d", g, lat, times))
+					out = append(out, fmt.Sprintf("mode=proc given=%s lat=%d times=%d pools=%d", g, lat, times, 2+times%2))
 				}
 			}
 		}
@@ -598,6 +619,9 @@ func gen(r *rand.Rand, tier string) []string {
 	}
 	// exactly on / one ms around the threshold at the first call (pick-up a few µs after T0)
 	out = append(out, "mode=waiter toks=-2000,-1999,-2001,-1998 sleeps=0,0,0,0")
+	// a schedule that needs 8 ms to hand a token out: tokens 1.995 s / 1.99 s late when Next is entered are more than 2 s late
+	// when they are picked up (the clock must be read after that)
+	out = append(out, "mode=waiter toks=-1995,-1990,-1997 sleeps=0,0,0 slownext=8000")
 	// cancellation while sleeping on the timer
 	out = append(out, "mode=waiter toks=-100,400,900 sleeps=0,0,0 cancel=600")
 	return out
@@ -611,6 +635,9 @@ func class(in, obs string) string {
 			return ""
 		}
 		c := "proc/given=" + m["given"]
+		if m["pools"] != "" {
+			c += "/pools=" + m["pools"]
+		}
 		if o["disc"] != "0" {
 			c += "/discards"
 		}
@@ -632,6 +659,9 @@ func class(in, obs string) string {
 	} else {
 		if m["unit"] == "us" {
 			c += "/near-us"
+		}
+		if m["slownext"] != "" {
+			c += "/slownext"
 		}
 		if _, ok := m["cancel"]; ok {
 			c += "/cancel"
